@@ -308,3 +308,454 @@ Definition example_verifies : bool :=
 
 Lemma example_verifies_true : example_verifies = true.
 Proof. vm_compute. reflexivity. Qed.
+
+(* ------------------------------------------------------------------ *)
+(* the data-flow iteration never touches the entry point *)
+
+Lemma ann_get_set : forall a k v k', ann_get (ann_set a k v) k' = if k =? k' then Some v else ann_get a k'.
+Proof.
+  induction a as [|[k0 v0] a IH]; intros k v k'.
+  - cbn [ann_set ann_get]. reflexivity.
+  - cbn [ann_set]. destruct (N.eqb_spec k0 k) as [E|E].
+    + subst k0. cbn [ann_get]. destruct (k =? k'); reflexivity.
+    + cbn [ann_get]. destruct (N.eqb_spec k0 k') as [E'|E'].
+      * subst k0. destruct (N.eqb_spec k k'); [congruence|reflexivity].
+      * apply IH.
+Qed.
+
+Definition entry0 (a : ann) : Prop := ann_get a 0 = Some 0.
+
+Lemma fold_entry0 : forall es acc,
+  entry0 (fst acc) ->
+  entry0 (fst (fold_left (fun (acc : ann * bool) (e : N * N) =>
+                  let '(a0, c0) := acc in
+                  match ann_get a0 (fst e) with
+                  | Some old => if snd e <? old then (ann_set a0 (fst e) (snd e), true) else (a0, c0)
+                  | None => (ann_set a0 (fst e) (snd e), true)
+                  end) es acc)).
+Proof.
+  induction es as [|e es IH]; intros [a0 c0] H; cbn [fold_left]; [exact H|].
+  apply IH. cbn [fst] in *. unfold entry0 in *.
+  destruct (ann_get a0 (fst e)) as [old|] eqn:G.
+  - destruct (snd e <? old) eqn:L; cbn [fst]; [|exact H].
+    rewrite ann_get_set. destruct (N.eqb_spec (fst e) 0) as [E|E]; [|exact H].
+    rewrite E, H in G. injection G as <-. apply N.ltb_lt in L. lia.
+  - cbn [fst]. rewrite ann_get_set. destruct (N.eqb_spec (fst e) 0) as [E|E]; [|exact H].
+    rewrite E, H in G. discriminate.
+Qed.
+
+Lemma flow_pass_entry0 : forall is a ch, entry0 a -> entry0 (fst (flow_pass is a ch)).
+Proof.
+  induction is as [|i rest IH]; intros a ch H; cbn [flow_pass]; [exact H|].
+  destruct (ann_get a (iip i)) as [d|]; [|apply IH, H].
+  destruct (d <? pops i); [apply IH, H|].
+  destruct (edges i _ d) as [es|]; [|apply IH, H].
+  match goal with |- context [fold_left ?f es (a, ch)] =>
+    pose proof (fold_entry0 es (a, ch) H) as F; destruct (fold_left f es (a, ch)) as [a' ch'] end.
+  apply IH. exact F.
+Qed.
+
+Lemma flow_entry0 : forall fuel is a a', entry0 a -> flow fuel is a = Some a' -> entry0 a'.
+Proof.
+  induction fuel as [|f IH]; intros is a a' H F; [discriminate|].
+  cbn [flow] in F. pose proof (flow_pass_entry0 is a false H) as P.
+  destruct (flow_pass is a false) as [a1 ch]. cbn [fst] in P.
+  destruct ch; [eapply IH; eassumption|]. injection F as <-. exact P.
+Qed.
+
+(* ------------------------------------------------------------------ *)
+(* which errors the operations can raise *)
+
+Ltac ni_tac :=
+  repeat match goal with
+         | |- context [match ?x with _ => _ end] => destruct x
+         end; try discriminate.
+
+Section NI.
+Variable o : stdlib.
+
+Lemma of_bres_ni : forall r, of_bres r = Err EInternal -> False.
+Proof. intros [v| |]; discriminate. Qed.
+
+Lemma name_of_ni : forall v, name_of o v = Err EInternal -> False.
+Proof. intros v. unfold name_of. ni_tac. Qed.
+
+Lemma lookup_ni : forall obj e n, lookup o obj e n = Err EInternal -> False.
+Proof. intros obj e n. unfold lookup. ni_tac. Qed.
+
+Lemma lookup1_ni : forall obj e c, (do name <- name_of o c; lookup o obj e name) = Err EInternal -> False.
+Proof.
+  intros obj e c. unfold bind. destruct (name_of o c) eqn:E; [apply lookup_ni|].
+  intro H. injection H as ->. eapply name_of_ni, E.
+Qed.
+
+Lemma lookup2_ni : forall obj e c,
+  (do name <- name_of o c; do v <- lookup o obj e name; Ok (name, v)) = Err EInternal -> False.
+Proof.
+  intros obj e c. unfold bind. destruct (name_of o c) eqn:E.
+  - destruct (lookup o obj e a) eqn:E2; [discriminate|]. intro H. injection H as ->. eapply lookup_ni, E2.
+  - intro H. injection H as ->. eapply name_of_ni, E.
+Qed.
+
+Lemma int_binop_ni : forall op a b, int_binop op a b = Err EInternal -> False.
+Proof. intros op a b. unfold int_binop, int_pow. destruct op; ni_tac. Qed.
+
+Lemma float_binop_ni : forall op a b, float_binop o op a b = Err EInternal -> False.
+Proof. intros op a b. unfold float_binop. destruct op; ni_tac. Qed.
+
+Lemma string_binop_ni : forall op a b, string_binop op a b = Err EInternal -> False.
+Proof. intros op a b. unfold string_binop. destruct op; ni_tac. Qed.
+
+Lemma vm_binop_ni : forall op l r, vm_binop o op l r = Err EInternal -> False.
+Proof.
+  intros op l r H. unfold vm_binop in H.
+  destruct op; try discriminate;
+    destruct l; try discriminate; destruct r; try discriminate;
+    try (apply int_binop_ni in H; exact H);
+    try (apply float_binop_ni in H; exact H);
+    try (apply string_binop_ni in H; exact H);
+    try (unfold bind, of_bres in H; destruct (match_m o _); discriminate);
+    repeat match type of H with
+           | context [match ?x with _ => _ end] => destruct x; try discriminate
+           end.
+Qed.
+
+Lemma vm_case_ni : forall v c, vm_case o v c = Err EInternal -> False.
+Proof. intros v c. unfold vm_case, of_bres. ni_tac. Qed.
+
+Lemma vm_index_ni : forall l i, vm_index o l i = Err EInternal -> False.
+Proof. intros l i. unfold vm_index. ni_tac. Qed.
+
+Lemma vm_minus_ni : forall v, vm_minus v = Err EInternal -> False.
+Proof. intros v. unfold vm_minus. ni_tac. Qed.
+
+Lemma vm_sqrt_ni : forall v, vm_sqrt v = Err EInternal -> False.
+Proof. intros v. unfold vm_sqrt. ni_tac. Qed.
+
+Lemma vm_range_ni : forall a b, vm_range a b = Err EInternal -> False.
+Proof. intros a b. unfold vm_range. ni_tac. Qed.
+
+Lemma iter_next_ni : forall v off, iter_next o v off = Err EInternal -> False.
+Proof. intros v off. unfold iter_next. ni_tac. Qed.
+
+Lemma build_hash_ok : forall n s acc,
+  (2 * n <= List.length s)%nat ->
+  match build_hash o n s acc with
+  | Ok (ps, s') => (List.length s' + 2 * n = List.length s)%nat
+  | Err e => e <> EInternal
+  end.
+Proof.
+  induction n as [|n IH]; intros s acc H; cbn [build_hash]; [lia|].
+  destruct s as [|v [|k s']]; cbn [List.length] in H; try lia.
+  destruct (hash_key o k) as [[hk|]|]; try discriminate.
+  destruct (hash_put o acc hk k v) as [acc'|]; try discriminate.
+  specialize (IH s' acc'). destruct (build_hash o n s' acc') as [[ps s'']|e].
+  - cbn [List.length]. assert (2 * n <= List.length s')%nat by lia. specialize (IH H0). lia.
+  - apply IH. lia.
+Qed.
+
+Lemma pop_n_ok : forall n s acc,
+  (n <= List.length s)%nat ->
+  exists elems s', pop_n n s acc = Some (elems, s') /\ (List.length s' + n = List.length s)%nat.
+Proof.
+  induction n as [|n IH]; intros s acc H; cbn [pop_n].
+  - eexists _, _. split; [reflexivity|lia].
+  - destruct s as [|v s]; cbn [List.length] in H; [lia|].
+    destruct (IH s (v :: acc)) as (el & s' & E & L); [lia|].
+    exists el, s'. split; [exact E|]. cbn [List.length]. lia.
+Qed.
+
+End NI.
+
+(* ------------------------------------------------------------------ *)
+(* soundness for call-free bodies *)
+
+Lemma Forall_1 : forall {A} (P : A -> Prop) x, Forall P [x] -> P x.
+Proof. intros A P x H. inversion H. assumption. Qed.
+Lemma Forall_2 : forall {A} (P : A -> Prop) x y, Forall P [x; y] -> P x /\ P y.
+Proof. intros A P x y H. inversion H as [|? ? H1 H2]. inversion H2. split; assumption. Qed.
+
+Section Sound.
+Variables (o : stdlib) (consts : list value) (funcs : list (str * ufunc)) (fns : fnmap) (obj : hostval).
+Variables (code : list N) (is : list instr) (a : ann).
+Hypothesis Hchain : chain code 0 is.
+Hypothesis Hcheck : check consts is is (lenN code) a = VOk.
+Hypothesis Hnocall : Forall (fun i => iop i <> OpCall) is.
+
+Definition startish (t : N) : Prop :=
+  lenN code <= t \/ exists pre i rest, is = pre ++ i :: rest /\ iip i = t.
+Definition good (t n : N) : Prop :=
+  lenN code <= t \/
+  exists pre i rest d, is = pre ++ i :: rest /\ iip i = t /\ ann_get a t = Some d /\ d <= n.
+Definition mid (t : N) (s : list value) : Prop :=
+  exists pre j rest b s', is = pre ++ j :: rest /\ iip j = t /\ iop j = OpJumpIfFalse /\
+     s = VBool b :: s' /\ good (if b then t + 3 else iarg j) (lenN s').
+Definition Inv (t : N) (m : mstate) : Prop := good t (lenN (stk m)) \/ mid t (stk m).
+
+Lemma good_mono : forall t n n', good t n -> n <= n' -> good t n'.
+Proof.
+  intros t n n' [H|(pre & i & rest & d & E & Hi & Ha & Hd)] L; [left; exact H|].
+  right. exists pre, i, rest, d. repeat split; auto. lia.
+Qed.
+
+Lemma at_chain : forall pre i rest, is = pre ++ i :: rest -> chain code (iip i) (i :: rest).
+Proof. intros pre i rest E. apply (chain_split code pre 0). rewrite <- E. exact Hchain. Qed.
+
+Lemma start_split : forall t, is_start is t = true -> exists pre i rest, is = pre ++ i :: rest /\ iip i = t.
+Proof.
+  intros t H. unfold is_start in H. apply existsb_exists in H. destruct H as (i & Hin & E).
+  apply N.eqb_eq in E. apply in_split in Hin. destruct Hin as (pre & rest & ->).
+  exists pre, i, rest. split; [reflexivity|exact E].
+Qed.
+
+Lemma next_startish : forall pre i rest, is = pre ++ i :: rest -> startish (iip i + ilen i).
+Proof.
+  intros pre i rest E. pose proof (at_chain _ _ _ E) as C. cbn [chain] in C.
+  destruct C as (_ & _ & _ & _ & _ & _ & C). destruct rest as [|j rest'].
+  - left. cbn [chain] in C. lia.
+  - right. cbn [chain] in C. destruct C as (Hj & _). exists (pre ++ [i]), j, rest'. split; [|exact Hj].
+    rewrite <- app_assoc. exact E.
+Qed.
+
+Lemma edge_good : forall t n, edge_ok a (lenN code) (t, n) -> startish t -> good t n.
+Proof.
+  intros t n He Hs. unfold edge_ok in He. cbn [fst snd] in He.
+  destruct Hs as [Hs|(pre & i & rest & E & Hi)]; [left; exact Hs|].
+  destruct (ann_get a t) as [b|] eqn:Ha; [|left; exact He].
+  right. exists pre, i, rest, b. repeat split; auto.
+Qed.
+
+Lemma op_len_jif : op_len OpJumpIfFalse = 3.
+Proof. vm_compute. reflexivity. Qed.
+
+Lemma flow_good : forall pre i rest d,
+  is = pre ++ i :: rest -> ann_get a (iip i) = Some d ->
+  pops i <= d /\ exists es, edges i (nexti rest) d = Some es /\ Forall (fun e => good (fst e) (snd e)) es.
+Proof.
+  intros pre i rest d E Ha.
+  destruct (check_spec _ _ _ _ _ Hcheck pre i rest E) as (S & F).
+  destruct (F d Ha) as (Hp & es & He & Hes). split; [exact Hp|]. exists es. split; [exact He|].
+  assert (T : Forall (fun e => startish (fst e)) es).
+  { destruct S as (S1 & _ & _).
+    pose proof (next_startish _ _ _ E) as Nx.
+    pose proof (at_chain _ _ _ E) as C. cbn [chain] in C. destruct C as (_ & _ & _ & _ & Hl & _ & C).
+    unfold edges in He.
+    destruct (N.eqb_spec (iop i) OpReturn) as [E1|E1]; [injection He as <-; constructor|].
+    destruct (N.eqb_spec (iop i) OpJump) as [E2|E2].
+    { injection He as <-. constructor; [|constructor]. cbn [fst]. right. apply start_split, S1. auto. }
+    destruct (N.eqb_spec (iop i) OpJumpIfFalse) as [E3|E3].
+    { injection He as <-. constructor; [|constructor; [|constructor]]; cbn [fst].
+      - rewrite E3, op_len_jif in Hl. rewrite <- Hl. exact Nx.
+      - right. apply start_split, S1. auto. }
+    destruct (N.eqb_spec (iop i) OpIterationNext) as [E4|E4].
+    { destruct rest as [|j rest']; cbn [nexti] in He; [discriminate|].
+      destruct (N.eqb_spec (iop j) OpJumpIfFalse) as [E5|E5]; [|discriminate].
+      injection He as <-.
+      assert (Ej : is = (pre ++ [i]) ++ j :: rest') by (rewrite <- app_assoc; exact E).
+      destruct (check_spec _ _ _ _ _ Hcheck _ j rest' Ej) as ((Sj & _ & _) & _).
+      pose proof (next_startish _ _ _ Ej) as Nj.
+      pose proof (at_chain _ _ _ Ej) as Cj. cbn [chain] in Cj. destruct Cj as (_ & _ & _ & _ & Hlj & _).
+      rewrite E5, op_len_jif in Hlj. rewrite Hlj in Nj.
+      constructor; [|constructor; [|constructor]]; cbn [fst]; [exact Nj|]. right. apply start_split, Sj. auto. }
+    injection He as <-. constructor; [|constructor]. cbn [fst]. exact Nx. }
+  rewrite Forall_forall in *. intros [t n] Hin. cbn [fst snd].
+  apply edge_good; [apply (Hes _ Hin)|apply (T _ Hin)].
+Qed.
+
+Section Step.
+Variable rec : list N -> N -> mstate -> outcome * mstate.
+
+Inductive res_ok : outcome * mstate -> Prop :=
+| RStop : forall out m', out <> OErr EInternal -> res_ok (out, m')
+| RCont : forall ip' m', Inv ip' m' -> res_ok (rec code ip' m').
+
+Ltac ev_goal :=
+  repeat (match goal with
+          | |- context [binop_of_opcode ?x] =>
+              let v := eval vm_compute in (binop_of_opcode x) in
+              match v with Some _ => idtac | None => idtac end; change (binop_of_opcode x) with v
+          | |- context [if ?c then _ else _] =>
+              let v := eval vm_compute in c in
+              match v with true => idtac | false => idtac end; change c with v
+          end; cbv beta iota zeta).
+
+Ltac ev_in H :=
+  repeat (match type of H with
+          | context [if ?c then _ else _] =>
+              let v := eval vm_compute in c in
+              match v with true => idtac | false => idtac end; change c with v in H
+          end; cbv beta iota zeta in H).
+
+Hint Resolve name_of_ni lookup_ni lookup1_ni lookup2_ni vm_binop_ni vm_case_ni vm_index_ni vm_minus_ni
+             vm_sqrt_ni vm_range_ni iter_next_ni of_bres_ni : ni.
+
+Ltac ni :=
+  first [ discriminate
+        | let X := fresh in intro X; injection X as ->; exfalso; eauto with ni ].
+
+Ltac lens := unfold lenN in *; cbn [List.length] in *; lia.
+
+Ltac crunch_res :=
+  repeat (cbv beta iota zeta;
+          match goal with
+          | |- res_ok (match ?x with _ => _ end) => destruct x eqn:?
+          end);
+  cbv beta iota zeta.
+
+Ltac leaf :=
+  lazymatch goal with
+  | |- res_ok (rec code ?t ?m') =>
+      apply RCont; left; unfold push, set_stk; cbn [stk];
+      match goal with
+      | G : good t _ |- _ => eapply good_mono; [exact G|lens]
+      end
+  | |- res_ok (fail _ _) => unfold fail; apply RStop; ni
+  | |- res_ok (_, _) => apply RStop; ni
+  end.
+
+Lemma step_good : forall pre i rest d m,
+  is = pre ++ i :: rest -> ann_get a (iip i) = Some d -> d <= lenN (stk m) ->
+  res_ok (PollProofs.instr o consts funcs fns obj rec code (iip i) m).
+Proof.
+  intros pre i rest d m E Ha Hd.
+  pose proof (at_chain _ _ _ E) as C. cbn [chain] in C. destruct C as (_ & Hlt & Hk & Hb & Hl & Hop & Hnext).
+  destruct (check_spec _ _ _ _ _ Hcheck pre i rest E) as ((S1 & S2 & S3) & _).
+  destruct (flow_good _ _ _ _ E Ha) as (Hp & es & He & Hg).
+  assert (Hnc : iop i <> OpCall).
+  { rewrite Forall_forall in Hnocall. apply Hnocall. rewrite E. apply in_elt. }
+  unfold PollProofs.instr. rewrite Hb. cbv beta iota zeta. rewrite <- Hl. rewrite Hop. cbv beta iota.
+  destruct i as [ip0 op arg ln]. destruct m as [st en tr po].
+  cbn [iip iop iarg ilen stk menv trace polls] in *.
+  unfold known_ops, memN in Hk.
+  repeat (apply orb_true_iff in Hk; destruct Hk as [Hk|Hk]; [apply N.eqb_eq in Hk; subst op|]);
+    [..|discriminate].
+  all: try (exfalso; apply Hnc; reflexivity).
+  all: vm_compute in Hl; subst ln.
+  all: cbv [edges pops pushes iip iop iarg ilen] in He, Hp; ev_in He; ev_in Hp.
+  all: ev_goal.
+  all: try (pose proof (S1 (or_introl eq_refl)) as [_ Sj]; apply N.leb_gt in Sj; rewrite Sj).
+  all: try (pose proof (S1 (or_intror eq_refl)) as [_ Sj]; apply N.leb_gt in Sj; rewrite Sj).
+  all: try (destruct (nthN_lt _ _ (S2 eq_refl)) as [cv Hcv]; rewrite Hcv).
+  all: try (destruct (S3 (or_introl eq_refl)) as [sv Hsv]; rewrite Hsv).
+  all: try (destruct (S3 (or_intror (or_introl eq_refl))) as [sv Hsv]; rewrite Hsv).
+  all: try (destruct (S3 (or_intror (or_intror eq_refl))) as [sv Hsv]; rewrite Hsv).
+  all: clear S1 S2 S3.
+  all: lazymatch type of Hb with
+       | _ = Some OpArray =>
+           injection He as <-; apply Forall_1 in Hg; cbv beta iota delta [fst snd] in Hg;
+           let el := fresh "el" in let s' := fresh "s'" in let Ep := fresh "Ep" in let L := fresh "L" in
+           destruct (pop_n_ok (N.to_nat arg) st []) as (el & s' & Ep & L); [lens|];
+           rewrite Ep; cbv beta iota zeta; leaf
+       | _ = Some OpHash =>
+           let q := fresh "q" in let q2 := fresh "q2" in let Hq := fresh "Hq" in let Hq2 := fresh "Hq2" in
+           remember ((arg + 1) / 2) as q eqn:Hq; clear Hq;
+           remember (2 * q) as q2 eqn:Hq2;
+           assert (Hq2' : N.to_nat q2 = (2 * N.to_nat q)%nat) by lia; clear Hq2;
+           injection He as <-; apply Forall_1 in Hg; cbv beta iota delta [fst snd] in Hg;
+           let B := fresh "B" in
+           assert (B : (2 * N.to_nat q <= List.length st)%nat) by lens;
+           apply (build_hash_ok o _ _ []) in B;
+           destruct (build_hash o (N.to_nat q) st []) as [[ps s']|e];
+           cbv beta iota zeta; [leaf|unfold fail; apply RStop; congruence]
+       | _ = Some OpIterationNext =>
+           let j := fresh "j" in let rest' := fresh "rest'" in
+           destruct rest as [|j rest']; cbn [nexti] in He; [discriminate|];
+           let Ej := fresh "Ej" in
+           match type of He with context [if ?c then _ else _] => destruct c eqn:Ej end; [|discriminate];
+           apply N.eqb_eq in Ej; change (iop j = OpJumpIfFalse) in Ej;
+           injection He as <-;
+           apply Forall_2 in Hg; cbv beta iota delta [fst snd] in Hg; destruct Hg as [Hg Hg2];
+           cbn [chain] in Hnext; destruct Hnext as (Hj & _);
+           change (good (iip j + 3) (d - 3 + 1)) in Hg; rewrite Hj in Hg;
+           change (good (iarg j) (d - 3)) in Hg2;
+           assert (Es : is = (pre ++ [mkI ip0 OpIterationNext arg 1]) ++ j :: rest')
+             by (rewrite <- app_assoc; exact E);
+           destruct st as [|v1 [|v2 [|v3 s]]];
+           try (exfalso; lens);
+           crunch_res;
+           lazymatch goal with
+           | |- res_ok (rec code _ {| stk := VBool ?b :: ?s0; menv := _; trace := _; polls := _ |}) =>
+               apply RCont; right; exists (pre ++ [mkI ip0 OpIterationNext arg 1]), j, rest', b, s0;
+               cbn [stk]; repeat split; [exact Es|exact Hj|exact Ej|];
+               cbv beta iota;
+               match goal with
+               | G : good ?t _ |- good ?t _ => eapply good_mono; [exact G|lens]
+               end
+           | _ => leaf
+           end
+       | _ =>
+           injection He as <-;
+           try (apply Forall_1 in Hg; cbv beta iota delta [fst snd] in Hg);
+           try (apply Forall_2 in Hg; cbv beta iota delta [fst snd] in Hg; destruct Hg as [Hg Hg2]);
+           destruct st as [|v1 [|v2 [|v3 s]]];
+           try (exfalso; lens);
+           crunch_res; leaf
+       end.
+Qed.
+
+Lemma step_mid : forall t m, mid t (stk m) ->
+  res_ok (PollProofs.instr o consts funcs fns obj rec code t m).
+Proof.
+  intros t m (pre & j & rest & b & s' & E & Hj & Eop & Hs & Hgd). subst t.
+  pose proof (at_chain _ _ _ E) as C. cbn [chain] in C. destruct C as (_ & Hlt & Hk & Hb & Hl & Hop & _).
+  destruct (check_spec _ _ _ _ _ Hcheck pre j rest E) as ((S1 & _ & _) & _).
+  destruct (S1 (or_intror Eop)) as [_ Sj]. apply N.leb_gt in Sj.
+  unfold PollProofs.instr. rewrite Hb. cbv beta iota zeta. rewrite <- Hl. rewrite Hop. cbv beta iota.
+  destruct j as [ip0 op arg ln]. destruct m as [st en tr po].
+  cbn [iip iop iarg ilen stk menv trace polls] in *. subst op st.
+  vm_compute in Hl; subst ln. ev_goal. cbn [truthy]. rewrite Sj.
+  destruct b; apply RCont; left; unfold set_stk; cbn [stk]; exact Hgd.
+Qed.
+
+End Step.
+
+Notation ex := (exec o consts funcs fns obj).
+
+Lemma sound_gen : forall fuel ip m out m',
+  Inv ip m -> ex fuel code ip m = (out, m') -> out <> OErr EInternal.
+Proof.
+  induction fuel as [|f IH]; intros ip m out m' HI H.
+  - cbn [exec] in H. unfold fail in H. injection H as <- _. discriminate.
+  - rewrite PollProofs.exec_S in H. destruct (lenN code <=? ip) eqn:L.
+    { injection H as <- _. discriminate. }
+    apply N.leb_gt in L.
+    assert (Hstep : forall m1, stk m1 = stk m ->
+              res_ok (ex f) (PollProofs.instr o consts funcs fns obj (ex f) code ip m1)).
+    { intros m1 Es. destruct HI as [[Hl|(pre & i & rest & d & E & Hi & Ha & Hd)]|Hm].
+      - lia.
+      - subst ip. eapply step_good; eauto. rewrite Es. exact Hd.
+      - apply step_mid. rewrite Es. exact Hm. }
+    assert (Hfin : forall m1, stk m1 = stk m ->
+              PollProofs.instr o consts funcs fns obj (ex f) code ip m1 = (out, m') -> out <> OErr EInternal).
+    { intros m1 Es Hr. specialize (Hstep m1 Es).
+      inversion Hstep as [out0 m0 Hne Heq|ip' m'' Hinv Heq]; rewrite <- Heq in Hr.
+      - injection Hr as <- _. exact Hne.
+      - eapply IH; eassumption. }
+    destruct (polls m) as [[|p]|].
+    + injection H as <- _. discriminate.
+    + eapply Hfin; [|exact H]. reflexivity.
+    + eapply Hfin; [|exact H]. reflexivity.
+Qed.
+
+End Sound.
+
+Theorem verifier_sound_callfree : forall o consts funcs fns obj isf code,
+  verify_body consts isf code = VOk ->
+  (forall is, decode (S (List.length code)) code 0 [] = (VOk, is) -> Forall (fun i => iop i <> OpCall) is) ->
+  forall fuel m out m', stk m = [] ->
+  exec o consts funcs fns obj fuel code 0 m = (out, m') -> out <> OErr EInternal.
+Proof.
+  intros o consts funcs fns obj isf code Hv Hcf fuel m out m' Hs H.
+  destruct (verify_body_inv _ _ _ Hv) as (is & D & R).
+  pose proof (decode_ok_chain _ _ D) as Hc. specialize (Hcf is D).
+  destruct R as [[-> _]|(Hne & _ & a & Hf & Hck)].
+  - cbn [chain] in Hc. destruct fuel as [|f].
+    + cbn [exec] in H. unfold fail in H. injection H as <- _. discriminate.
+    + rewrite PollProofs.exec_S in H. rewrite <- Hc in H. cbn in H. injection H as <- _. discriminate.
+  - eapply (sound_gen o consts funcs fns obj code is a Hc Hck Hcf); [|exact H].
+    left. right. destruct is as [|i0 is']; [congruence|].
+    exists [], i0, is', 0. cbn [chain] in Hc. destruct Hc as (H0 & _).
+    repeat split; auto.
+    + apply (flow_entry0 _ _ _ _ (eq_refl : entry0 [(0, 0)]) Hf).
+    + lia.
+Qed.
